@@ -128,6 +128,8 @@ type iterState struct {
 	m       *Term
 	mapT    *types.Map
 	visited *Term // Array K Bool
+	count   *Term // number of keys produced so far (zz_n in loop contracts)
+	dom0    *Term // the map's key set when the range statement started
 	isStr   bool
 	str     *Term
 	pos     *Term
